@@ -11,14 +11,15 @@ QuoteJSONString / InternalizeJSONProperty over a model of JS values):
      (key, value, holder, context.source)                                                           K = 4 quick / 6 thorough
  (c) nesting depth 1..2000 of `[` and `{"a":` through parse and stringify (no crash; correct up to depth 64)
  (d) every JSON value of <= N nodes over 12 scalars and 5 keys with duplicate keys, as text: parse, stringify, re-parse,
-     re-stringify, three revivers                                                                   N = 3 quick / 4 thorough
- (e) stringify: those values (built by JS literals) x 3 replacers x 6 indents, and 35 special inputs x 3 replacers x 18 indents
+     re-stringify, three revivers; plus 12 hand-written deeper texts                                  N = 3 quick / 4 thorough
+ (e) stringify: those values (built by JS literals) x 3 replacers x 6 indents (3 for the 4-node layer), and 34 special inputs
+     x 3 replacers x 18 indents
  (g) every UTF-16 code unit: raw inside a string, as white space, after a backslash, as \\uXXXX (both hex cases), through
      QuoteJSONString; all strings of <= 3 units over {A, D800, DBFF, DC00, DFFF, 2028} through stringify and back
 
 The text reaches JSON.parse unmodified: the driver builds it from code units inside the engine.
 """
-import hashlib, json, multiprocessing, os, subprocess, time
+import hashlib, json, multiprocessing, os, resource, subprocess, time
 from concurrent.futures import ThreadPoolExecutor
 from .. import core
 from .. import c18_json as J
@@ -52,15 +53,36 @@ def _node_chunk(args):
     return res
 
 
+ENV = {"VERIF_CASE_CAP_MS": "240000"}
+
+
 def engine_run(descs, drv):
-    jobs = [{"i": n, "src": C.source(d, drv), "cfg": CFG} for n, d in enumerate(descs)]
-    if not NODE:
-        return core.run_jobs(jobs)
-    per = max(1, (len(jobs) + 15) // 16)
-    chunks = [(n, jobs[i:i + per]) for n, i in enumerate(range(0, len(jobs), per))]
-    with ThreadPoolExecutor(max_workers=16) as ex:
-        parts = list(ex.map(_node_chunk, chunks))
-    return [r for p in parts for r in p]
+    """Results in descriptor order.  On the engine, consecutive descriptors share one context (a `hist` job: the driver is
+    evaluated once, then one step per descriptor); a group that does not complete is re-run one descriptor per fresh context."""
+    if NODE:
+        jobs = [{"i": n, "src": C.source(d, drv)} for n, d in enumerate(descs)]
+        per = max(1, (len(jobs) + 15) // 16)
+        chunks = [(n, jobs[i:i + per]) for n, i in enumerate(range(0, len(jobs), per))]
+        with ThreadPoolExecutor(max_workers=16) as ex:
+            parts = list(ex.map(_node_chunk, chunks))
+        return [r for p in parts for r in p]
+    G = max(1, min(16, -(-len(descs) // (core.NPROC * 2))))
+    groups = [descs[i:i + G] for i in range(0, len(descs), G)]
+    jobs = [{"i": n, "hist": [C.source(g[0], drv).rsplit("run", 1)[0]] + [C.source(d, "") for d in g], "cfg": CFG} for n, g in enumerate(groups)]
+    res = core.run_jobs(jobs, chunk=1, env_extra=ENV)
+    out, redo = [], []
+    for g, r in zip(groups, res):
+        steps = r.get("steps")
+        if steps is None or len(steps) != len(g) + 1 or any(core.is_bad(x.get("completion")) for x in steps):
+            redo += list(range(len(out), len(out) + len(g)))
+            out += [None] * len(g)
+        else:
+            out += steps[1:]
+    if redo:
+        rr = core.run_jobs([{"i": n, "src": C.source(descs[i], drv), "cfg": CFG} for n, i in enumerate(redo)], chunk=1, env_extra=ENV)
+        for i, r in zip(redo, rr):
+            out[i] = r
+    return out
 
 
 def _pyjson_disagreements(args):
@@ -172,6 +194,7 @@ class State:
         self.first_depth_fail = {}
         self.accepted = 0
         self.rejected = 0
+        self.nreported = 0
 
     def part(self, name):
         return self.parts.setdefault(name, {"cases": 0, "engine_ops": 0, "compared": 0, "accepted": 0, "mismatching_cases": 0})
@@ -180,6 +203,10 @@ class State:
         self.outcomes.add(hashlib.blake2b(s.encode("utf-8", "surrogatepass"), digest_size=8).digest())
 
     def report(self, case, observed, what, desc, expected):
+        self.nreported += 1
+        if self.chk is not None and self.chk.findings.lookup(core.sha12(case), core.sha12(observed)) is not None:
+            self.chk.violation(case, observed, what)  # a listed finding: recorded at once, nothing kept
+            return
         self.pending.append((case, observed, what, desc, expected))
 
 
@@ -207,7 +234,7 @@ def single(desc, idx):
     elif k == "values":
         d.update(texts=[desc["texts"][idx - desc["base"]]], base=idx)
     elif k == "strval":
-        d.update(vals=[desc["vals"][idx - desc["base"]]], base=idx)
+        d.update(vals=[desc["vals"][idx - desc["base"]]], base=idx, inds=desc.get("inds", C.INDS_MAIN))
     elif k == "strspecial":
         d.update(lo=idx, hi=idx + 1)
     elif k == "depth":
@@ -315,8 +342,26 @@ def compare_depth(st, part, desc, lines, comp):
 # ------------------------------------------------------------------------------------------------
 # families
 # ------------------------------------------------------------------------------------------------
+def _child_cpu():
+    r = resource.getrusage(resource.RUSAGE_CHILDREN)
+    return r.ru_utime + r.ru_stime
+
+
 def ranges(n, per):
     return [(lo, min(n, lo + per)) for lo in range(0, n, per)]
+
+
+# hand-written deeper texts for the reviver / round-trip paths (both tiers; the quick value layer stops at 3 nodes)
+EXTRA_TEXTS = [
+    '[0,[7]]', '[0,{"a":7}]', '{"a":0,"k":[1]}', '{"a":1,"b":{"c":[2,"x"]}}', '[[1],[2,[3]]]', '{"__proto__":[0],"a":{"__proto__":1}}',
+    '[0,[0,[0]]]', '{"1":{"0":[true,null]},"a":[{"a":-0}]}', '[1,[2,3],{"k":[4,{"k":5}]},"s"]', '{"a":[1,2,3],"a":[4,[5]],"b":"a"}',
+    ' [ 1 , [ 2.50 , 1E2 , -0.0 , 1e-400 ] , { "k" : "\\u0041\\n" , "" : [ ] } ] ', '[[[[[[[[1]]]]]]],[[[[[[[2]]]]]]]]',
+]
+
+
+def depth_list_quick():
+    """every depth up to 260 (covers the 64 that must work and the engine's observed cut at 128), then a coarser grid up to 2000"""
+    return list(range(1, 261)) + list(range(300, 1000, 50)) + list(range(1000, DEPTH_MAX + 1, 100))
 
 
 def build_families(tier, src_ctx):
@@ -333,7 +378,8 @@ def build_families(tier, src_ctx):
     for l in range(0, T["K"] + 1):
         db += [{"k": "parse", "fam": "b", "l": l, "lo": lo, "hi": hi, "rev": True, "src": src_ctx} for lo, hi in ranges(nt ** l, per)]
     fams.append(("b-tokens", db))
-    fams.append(("c-depth", [{"k": "depth", "d": d} for d in range(1, DEPTH_MAX + 1)]))
+    depths = list(range(1, DEPTH_MAX + 1)) if tier == "thorough" else depth_list_quick()
+    fams.append(("c-depth", [{"k": "depth", "d": d} for d in depths]))
     vt = J.value_texts(max(T["DN"], T["EN"]))
     dd, base = [], 0
     for n in range(T["DN"]):
@@ -341,21 +387,33 @@ def build_families(tier, src_ctx):
         for lo, hi in ranges(len(texts), 400):
             dd.append({"k": "values", "texts": texts[lo:hi], "base": base + lo, "src": src_ctx})
         base += len(texts)
+    dd.append({"k": "values", "texts": list(EXTRA_TEXTS), "base": base, "src": src_ctx})
     fams.append(("d-values", dd))
     de, base = [], 0
     for n in range(T["EN"]):
         for lo, hi in ranges(len(vt[n]), 150):
-            de.append({"k": "strval", "vals": vt[n][lo:hi], "base": base + lo})
+            de.append({"k": "strval", "vals": vt[n][lo:hi], "base": base + lo, "inds": C.INDS_SUB if n >= 3 else C.INDS_MAIN})
         base += len(vt[n])
     fams.append(("e-stringify-values", de))
     fams.append(("e-stringify-specials", [{"k": "strspecial", "lo": i, "hi": i + 1} for i in range(len(C.SPECIALS))]))
+    # (g) code units.  Blocks of 16 consecutive units in one string in both tiers; one text per unit for the first 256 units
+    # (quick) / for every unit (thorough); upper-case hex escapes for every digit in every position (quick) / every unit (thorough)
+    full = tier == "thorough"
     dg = []
-    for fam in ("g1", "g2", "g3"):
-        dg += [{"k": "parse", "fam": fam, "l": 0, "lo": lo, "hi": hi, "src": src_ctx} for lo, hi in ranges(65536, 4096)]
-    for l in (0, 1):
-        dg += [{"k": "parse", "fam": "g4", "l": l, "lo": lo, "hi": hi, "src": src_ctx} for lo, hi in ranges(65536, 4096)]
+    for fam in ("g1b", "g4b"):
+        dg += [{"k": "parse", "fam": fam, "l": 0, "lo": lo, "hi": hi, "src": src_ctx} for lo, hi in ranges(4096, 512)]
+    for fam in ("g2", "g3"):
+        dg += [{"k": "parse", "fam": fam, "l": 0, "lo": lo, "hi": hi, "src": src_ctx} for lo, hi in ranges(65536, 8192)]
+    if full:
+        dg += [{"k": "parse", "fam": "g1", "l": 0, "lo": lo, "hi": hi, "src": src_ctx} for lo, hi in ranges(65536, 2048)]
+        for l in (0, 1):
+            dg += [{"k": "parse", "fam": "g4", "l": l, "lo": lo, "hi": hi, "src": src_ctx} for lo, hi in ranges(65536, 2048)]
+    else:
+        dg += [{"k": "parse", "fam": "g1", "l": 0, "lo": 0, "hi": 256, "src": src_ctx}, {"k": "parse", "fam": "g4", "l": 0, "lo": 0, "hi": 256, "src": src_ctx},
+               {"k": "parse", "fam": "g4u", "l": 0, "lo": 0, "hi": 512, "src": src_ctx}]
     fams.append(("g-codeunits-parse", dg))
-    dq = [{"k": "quote", "fam": "g5", "l": 0, "lo": lo, "hi": hi} for lo, hi in ranges(65536, 4096)]
+    dq = [{"k": "quote", "fam": "g5b", "l": 0, "lo": lo, "hi": hi} for lo, hi in ranges(4096, 512)]
+    dq += [{"k": "quote", "fam": "g5", "l": 0, "lo": lo, "hi": hi} for lo, hi in (ranges(65536, 2048) if full else [(0, 256)])]
     dq += [{"k": "quote", "fam": "g6", "l": l, "lo": 0, "hi": 6 ** l} for l in range(0, 4)]
     fams.append(("g-codeunits-quote", dq))
     return fams
@@ -376,13 +434,16 @@ def run(chk):
     drv = C.driver(src_ctx)
     st = State(chk, drv, src_ctx)
     fams = build_families(tier, src_ctx)
+    if J.PERTURB:
+        chk.cov["exhaustive"] = False
+        chk.cov["caps_hit"].append("reference model deliberately perturbed: C18_PERTURB=" + J.PERTURB)
     only = os.environ.get("C18_ONLY")  # debugging aid: restrict to some families (evidence then says so)
     if only:
         fams = [f for f in fams if f[0].split("-")[0] in only.split(",")]
         chk.cov["exhaustive"] = False
         chk.cov["caps_hit"].append("C18_ONLY=" + only)
     ctx = multiprocessing.get_context("fork")
-    times = {}
+    times, cpu = {}, {}
     with ctx.Pool(core.NPROC) as pool:
         # run-time cross-check of the recogniser against Python's json module on the quick-sized text space
         xr = []
@@ -392,7 +453,8 @@ def run(chk):
         xcheck = pool.map_async(_pyjson_disagreements, xr, chunksize=4)
         for name, descs in fams:
             t0 = time.time()
-            block = 1024
+            c0 = _child_cpu()
+            block = 1024 if descs and descs[0]["k"] in ("parse", "depth", "quote") else 128
             for b in range(0, len(descs), block):
                 blk = descs[b:b + block]
                 ar = pool.map_async(C.expected, blk, chunksize=max(1, len(blk) // (core.NPROC * 4)))
@@ -401,22 +463,35 @@ def run(chk):
                 for d, r, e in zip(blk, res, exp):
                     compare(st, name, d, r, e)
             times[name] = round(time.time() - t0, 1)
+            cpu[name] = round(_child_cpu() - c0, 1)
+        t0 = time.time()
         xc = xcheck.get()
+        times["pyjson-xcheck-wait"] = round(time.time() - t0, 1)
     py_n, py_bad = sum(a for a, _ in xc), sum(b for _, b in xc)
-    if py_bad:
+    if py_bad and not J.PERTURB:  # (a deliberately perturbed model is allowed to disagree: sensitivity demonstration)
         raise core.MachineryError("the reference recogniser disagrees with Python's json module on %d texts" % py_bad)
 
     # verdicts: confirm what is not already known, then report
     todo = []
     for case, observed, what, desc, expected in st.pending:
-        if chk.findings.lookup(core.sha12(case), core.sha12(observed)) is None and len(todo) < 300:
+        if chk.findings.lookup(core.sha12(case), core.sha12(observed)) is None and len(todo) < 48:
             todo.append(desc)
+    t0 = time.time()
     if todo and not NODE:
         jobs = [{"i": n, "src": C.source(d, drv), "cfg": CFG} for n, d in enumerate(todo)]
         first = core.run_jobs(jobs, chunk=1)
         core.confirm(list(zip(jobs, first)))
+    dump_to = os.environ.get("C18_TRIAGE_OUT")  # maintenance: write candidate known-list lines instead of replay files; never a verdict
+    if dump_to:
+        with open(dump_to, "w") as f:
+            for case, observed, what, desc, expected in st.pending:
+                f.write("TRIAGE %s %s %s\n" % (core.sha12(case), core.sha12(observed), what[:120]))
+        raise core.MachineryError("maintenance mode: %d candidate lines written to %s; this run is not a verdict" % (len(st.pending), dump_to))
     for case, observed, what, desc, expected in st.pending:
         chk.violation(case, observed, what, replay={"desc": desc, "src_ctx": src_ctx}, expected=expected)
+    times["confirm+report"] = round(time.time() - t0, 1)
+    chk.cov["wall_by_phase_s"] = times
+    chk.cov["engine_cpu_by_family_s"] = cpu
 
     tot = {"cases": 0, "engine_ops": 0, "compared": 0}
     for name, p in st.parts.items():
@@ -440,13 +515,11 @@ def run(chk):
         "distinct_nontrivial = inputs accepted by the reference; distinct_outcomes = distinct value dumps / output strings / error kinds")
     mism = sum(p["mismatching_cases"] for p in st.parts.values())
     chk.cov["mismatching_cases"] = mism
-    for name, descs in fams[:1]:
-        pass
     chk.sample({"family": "a", "text": J.qs(C.gen_text("a", 3, 12345)), "reference": _ref_outcome(C.gen_text("a", 3, 12345))})
     chk.sample({"family": "b", "text": J.qs(C.gen_text("b", 3, 2 * 441 + 10 * 21 + 3)), "reference": _ref_outcome(C.gen_text("b", 3, 2 * 441 + 10 * 21 + 3))})
     chk.sample({"family": "b", "text": J.qs("[1e400]"), "reference": _ref_outcome("[1e400]")})
     chk.sample({"family": "d", "text": '{"__proto__":0,"a":-0,"__proto__":[]}', "reference": _ref_outcome('{"__proto__":0,"a":-0,"__proto__":[]}')})
-    chk.sample({"family": "e", "input": C.SPECIALS[6][0], "expected_lines": C.exp_stringify_model(C.SPECIALS[6][3], 6, False, 3)[:3]})
+    chk.sample({"family": "e", "input": C.SPECIALS[6][0], "expected_lines": C.exp_stringify_model(C.SPECIALS[6][3], 6, False, [0, 2])[:3]})
     chk.assumptions += [
         "the reference (vlib/c18_json.py) is the specification: ECMA-404 grammar, correctly rounded decimal->double via Python float(), ES2024 "
         "JSON.stringify incl. well-formed escaping, InternalizeJSONProperty with the parse records of the JSON.parse-source-text proposal "
@@ -459,7 +532,7 @@ def run(chk):
         os.makedirs(os.path.dirname(XCHECK_FILE), exist_ok=True)
         json.dump({"engine": subprocess.run(["node", "-p", "process.version+' V8 '+process.versions.v8"], stdout=subprocess.PIPE, text=True).stdout.strip(),
                    "flags": "--harmony-json-parse-with-source", "tier": tier, "bounds": chk.cov["bounds"], "cases": tot["cases"], "engine_ops": tot["engine_ops"],
-                   "comparisons": tot["compared"], "disagreements": len(st.pending), "disagreement_samples": [p[2][:200] for p in st.pending[:20]],
+                   "comparisons": tot["compared"], "disagreements": st.nreported, "disagreement_samples": [p[2][:200] for p in st.pending[:20]],
                    "parts": st.parts}, open(XCHECK_FILE, "w"), indent=1)
 
 
@@ -483,6 +556,8 @@ def replay(rep):
         print("violations:", [p[2] for p in st.pending])
         return 1 if st.pending else 0
     exp = C.expected(desc)
+    first = desc.get("lo", desc.get("base", 0))
+    print("input:", J.qs(text_of(desc, first)), "(the engine driver builds it from code units)" if desc["k"] in ("parse", "quote") else "")
     print("expected (reference):")
     for l in exp:
         print("   ", l)
